@@ -17,6 +17,7 @@ func init() {
 	vrt.Register("C01_named_string_types", NamedStringTypes)
 	vrt.Register("C01_stored_in_html_typed", StoredInHTMLTyped)
 	vrt.Register("C01_sequences_of_kinds", SequencesOfKinds)
+	vrt.Register("C01_printed_through_methods", PrintedThroughMethods)
 }
 
 type holder struct {
@@ -562,5 +563,55 @@ func SequencesOfKinds() {
 		}
 	}
 	vrt.Assert(rest == "", "nothing else is emitted")
+	vrt.Cover("done")
+}
+
+// ---- untrusted strings that reach the sink through a method of their type or
+// through a helper that formats them: a named string type with a String
+// method, a struct with a String method (value and pointer), a function
+// literal whose source contains the string as a literal, debug(x) / inspect(x)
+type label string
+
+func (l label) String() string { return string(l) }
+
+type tagged struct{ s string }
+
+func (t tagged) String() string { return t.s }
+
+func PrintedThroughMethods() {
+	p := payload()
+	for i := 0; i < len(p); i++ {
+		vrt.Assume(p[i] != '"' && p[i] != '\\' && p[i] != '\n' && p[i] != '\r') // the payload also stands inside a string literal below
+	}
+	ctx := baseCtx(p)
+	ctx.Set("pl", p)
+	ctx.Set("lab", label(p))
+	ctx.Set("tg", tagged{p})
+	ctx.Set("tgp", &tagged{p})
+	ctx.Set("labs", []interface{}{label(p)})
+	var in, pre, post string
+	switch vrt.Choice(7) {
+	case 0:
+		in, pre, post = "[<%= lab %>]", "[", "]"
+	case 1:
+		in, pre, post = "[<%= tg %>]", "[", "]"
+	case 2:
+		in, pre, post = "[<%= tgp %>]", "[", "]"
+	case 3:
+		in, pre, post = "[<%= labs[0] %>]", "[", "]"
+	case 4:
+		in, pre, post = "<%= debug(pl) %>", "<pre>", "</pre>"
+	case 5:
+		in, pre, post = "<%= debug(lab) %>", "<pre>", "</pre>"
+	default:
+		in, pre, post = "[<%= inspect(pl) %>]", "[", "]"
+	}
+	vrt.Note("input", in)
+	got, err := plush.Render(in, ctx)
+	vrt.Note("got", got)
+	vrt.Assert(err == nil, "a value printed through a method or a formatting helper renders")
+	vrt.Assert(len(got) >= len(pre)+len(post) && got[:len(pre)] == pre && got[len(got)-len(post):] == post, "the frame is emitted verbatim")
+	r := got[len(pre) : len(got)-len(post)]
+	vrt.Assert(decodesTo(r, p), "a string that reaches the output through String() or a formatting helper has < > & ' \" only as entities and decodes to itself")
 	vrt.Cover("done")
 }
